@@ -152,7 +152,7 @@ CLAIMED = {
                 "arbitrary actor lists): every enqueued job is in exactly one place (no loss, no duplication), a future that is Done holds its own job's annotated outcome, a future is set at most once and never "
                 "changes again, a strictly decreasing measure bounds the enabled steps and at quiescence every future is resolved (liveness under a fair scheduler, labelled so), a failing job fails its future "
                 "(conditional fact with hard obligation after the fix). Closed under the global context. Real master + 1..4 worker threads on batches of distinct jobs with randomised switch intervals, a failing job "
-                "at every position, plus a gate-based deterministic explorer; every run's model-level event trace is replayed in Coq and every future compared with the model and with direct execution.",
+                "at every position, plus a gate-based deterministic explorer; every run's model-level event trace is replayed in Coq and every future compared with the model and with direct execution. With one copy of the context object per job (generated fact context_copied_at_enqueue, hard obligation) the status of every job carries the id of that job whatever objects the callers hand over (C15_status_carries_the_jobs_own_id over Model/Alias.v; refuted_when without the copy).",
         "note": "Model coq/Model/JobQueue.v over the abstract transport (atomic publish/pop: justified by the C14 theorems); real-time behaviour of the 0.2 s polling and interleavings finer than a transport operation are covered by the randomised runs only.",
         "technique": "Coq invariant proofs over all schedules + generated facts + trace validation of real threaded runs",
         "design": "DESIGN.md section 6, C15",
